@@ -20,6 +20,8 @@ type c19Case struct {
 	Kind   string `json:"kind"`
 	PreErr bool   `json:"pre_existing_error,omitempty"` // an earlier operation left an error in the stack
 	Long   string `json:"long_pattern,omitempty"`       // run-length description of a long pattern, e.g. "1,50x0,1,45x0"
+	// ChildRO: the (nested) stack is read-only: Defrag of the parent leaves it exactly as it is
+	ChildRO bool `json:"nested_stack_read_only,omitempty"`
 }
 
 func (cs c19Case) pattern() string {
@@ -217,6 +219,9 @@ func c19Run(c *Ctx, cs c19Case, count bool) {
 			want = append(want, v)
 		}
 	}
+	if cs.ChildRO {
+		target.SetReadOnly(true)
+	}
 	sibling := stackage.List().Push("s1", nil, "s2") // a sibling holding a nil gap of its own
 	var recv stackage.Stack
 	var parentWant []any
@@ -284,6 +289,17 @@ func c19Run(c *Ctx, cs c19Case, count bool) {
 		return
 	}
 	got := contents(target)
+	if cs.ChildRO {
+		// a read-only stack below the receiver: untouched, and nothing of it leaks upwards
+		if !sameList(got, vals) {
+			c.Violation("nested("+cs.Place+"):read-only-child-changed", fmt.Sprintf("Defrag of the parent changed a read-only nested stack: %s want %s (%s)", showList(got), showList(vals), jsonString(cs)), cs, size)
+		}
+		if recv.Err() != nil {
+			c.Violation("nested("+cs.Place+"):parent-err-set", fmt.Sprintf("the receiver reports Err()=%v after Defrag although only a nested read-only stack carried an (earlier, unrelated) error: %s", recv.Err(), jsonString(cs)), cs, size)
+		}
+		c.Outcome("read-only-child")
+		return
+	}
 	pre := ""
 	if !strings.HasPrefix(cs.Place, "top") {
 		pre = "nested(" + cs.Place + "):"
@@ -337,6 +353,11 @@ func c19Run(c *Ctx, cs c19Case, count bool) {
 		c.Violation(pre+"config-lost", fmt.Sprintf("stack no longer initialised after Defrag on %s", jsonString(cs)), cs, size)
 	}
 	if !strings.HasPrefix(cs.Place, "top") {
+		if perr := recv.Err(); perr != nil {
+			// the receiver itself had no error and no nil of its own: whatever a nested stack still
+			// carries (an earlier, unrelated error; the recorded forward-index failure) stays down there
+			c.Violation(pre+"parent-err-set", fmt.Sprintf("the receiver reports Err()=%v after Defrag on %s", perr, jsonString(cs)), cs, size)
+		}
 		if pg := contents(recv); !sameList(pg, parentWant) {
 			c.Violation(pre+"parent-changed", fmt.Sprintf("the enclosing stack changed: %s want %s (%s)", showTypes(pg), showTypes(parentWant), jsonString(cs)), cs, size)
 		}
@@ -376,19 +397,37 @@ func c19Cases(c *Ctx) []c19Case {
 					if (opt.neg || opt.fwd) && (lim != 0 || n > maxLen-2) {
 						continue
 					}
-					out = append(out, c19Case{n, mask, lim, opt.neg, opt.fwd, "top", "LIST", false, ""})
+					out = append(out, c19Case{n, mask, lim, opt.neg, opt.fwd, "top", "LIST", false, "", false})
 					if mask != (1<<n)-1 && !opt.neg && !opt.fwd && (lim == 0 || lim == 3) && n <= nestLen+2 {
-						out = append(out, c19Case{n, mask, lim, false, false, "top", "LIST", true, ""})
+						out = append(out, c19Case{n, mask, lim, false, false, "top", "LIST", true, "", false})
 					}
 				}
 				if n <= nestLen && (lim == 0 || lim == 3) {
 					for _, pl := range []string{"top-mutex", "top-decorated", "in-stack", "alias", "ptr-alias", "in-cond", "in-cond-only", "in-cond-alias", "deep", "in-stack-parent-options", "in-cond-nonesting-parent"} {
-						out = append(out, c19Case{n, mask, lim, false, false, pl, "AND", false, ""})
+						out = append(out, c19Case{n, mask, lim, false, false, pl, "AND", false, "", false})
 						if mask != (1<<n)-1 && n <= 4 && lim == 0 {
-							out = append(out, c19Case{n, mask, lim, false, false, pl, "AND", true, ""})
+							out = append(out, c19Case{n, mask, lim, false, false, pl, "AND", true, "", false})
 						}
 					}
 				}
+			}
+		}
+	}
+	// nested stacks with index options, an earlier error, or the read-only flag of their own
+	for n := 1; n <= 4; n++ {
+		for mask := 0; mask < 1<<n; mask++ {
+			for _, pl := range []string{"in-stack", "in-cond", "deep", "alias"} {
+				for v := 0; v < 4; v++ {
+					x := c19Case{Len: n, Mask: mask, Place: pl, Kind: "AND", Neg: v&1 != 0, Fwd: v&2 != 0, PreErr: true}
+					if mask != (1<<n)-1 { // whether a stale error on a nil-free stack survives is not constrained
+						out = append(out, x)
+					}
+					x.PreErr = false
+					if v != 0 {
+						out = append(out, x)
+					}
+				}
+				out = append(out, c19Case{Len: n, Mask: mask, Place: pl, Kind: "AND", PreErr: true, ChildRO: true}, c19Case{Len: n, Mask: mask, Place: pl, Kind: "AND", Fwd: true, ChildRO: true})
 			}
 		}
 	}
@@ -396,7 +435,9 @@ func c19Cases(c *Ctx) []c19Case {
 		out[i].Kind = kindNames[i%5] // every kind is sampled evenly
 	}
 	// long patterns: nil runs of 50 and more with a scan limit above the default of 50, in every placement
-	for _, long := range []string{"1,50x0,1,45x0", "51x0,1", "1,55x0,1", "1,49x0,1,2x0,1", "2x1,52x0,3x1,1x0"} {
+	for _, long := range []string{"1,50x0,1,45x0", "51x0,1", "1,55x0,1", "1,49x0,1,2x0,1", "2x1,52x0,3x1,1x0",
+		// stacks longer than a machine word has bits, with short runs only
+		"10x1,5x0,55x1", "63x1,5x0,2x1", "20x1,2x0,20x1,3x0,30x1", "64x1,1x0,1", "60x1,1x0,9x1", "33x1,1x0,33x1,1x0,33x1,1x0,33x1", "5x0,130x1"} {
 		for _, lim := range []int{0, 60, 100} {
 			run := 0
 			for _, v := range longValues(long) {
@@ -412,7 +453,7 @@ func c19Cases(c *Ctx) []c19Case {
 				if pl == "top" {
 					kind = "LIST"
 				}
-				out = append(out, c19Case{0, 0, lim, false, false, pl, kind, false, long})
+				out = append(out, c19Case{0, 0, lim, false, false, pl, kind, false, long, false})
 			}
 		}
 	}
